@@ -80,7 +80,10 @@ MANIFEST = {
                 "translator's statement patterns (tools/gen_rc.py) and the generic interpretation Ir.exec/Ir.sem (what a pointer variable "
                 "denotes; increment through `data` after `data = other.data` = inc d s, through a local = inc T s and the later store = move; "
                 "release = dec; free, for Ptr the model's relP incl. the destructor of the harness' Node; allocation = alloc with the measured "
-                "capacity; the position of clr is not compared). STILL hand-translated and only tied by the correspondence run: Variant::swap, "
+                "capacity; the position of clr is not compared). Variant::swap is translated as a sequence of calls of translated members (tie_Variant_swap). Measured parameters of the "
+                "model (harness --probe on the real class, recorded in the evidence, used by no theorem about the property): the capacity tables, "
+                "growTab (growth of a sole owner's block), assignEmptyStatic and assignSameSkip (policies of String::operator=; tie_String_assign "
+                "holds for the policies the translated body has). STILL hand-translated and only tied by the correspondence run: "
                 "the callers' byte copies around detach, the container code behind embedded handles, the resolution constSkip of operator const "
                 "char*() in the driver, and the mapping of the resolved op lines "
                 "(append(const String&) etc.) to model calls; sequentially consistent "
